@@ -42,18 +42,20 @@ Qed.
 Theorem gl_rule_exact n D rule : (n <= 2)%nat -> gl_rule n = Some (D, rule) ->
   forall P lo hi, (length P <= 2 * n)%nat -> gl_apply D rule P lo hi = (pintegral P lo hi, 0).
 Proof.
-  intro Hn. destruct n as [|[|[|n]]]; try lia; cbn [gl_rule]; intro E; try discriminate E; injection E as E1 E2; subst D rule; intros P lo hi H.
-  - apply gl1_exact. lia.
-  - apply gl2_exact. lia.
+  intros Hn E P lo hi H.
+  destruct n as [|[|[|n]]]; [discriminate E | | | lia].
+  - injection E as E1 E2. subst D rule. apply gl1_exact. exact H.
+  - injection E as E1 E2. subst D rule. apply gl2_exact. exact H.
 Qed.
 
 Theorem code_rule_exact_for_degree_p p : (1 <= p <= 3)%nat ->
   exists D rule, gl_rule (gl_points p) = Some (D, rule) /\
     forall P lo hi, (length P <= p + 1)%nat -> gl_apply D rule P lo hi = (pintegral P lo hi, 0).
 Proof.
-  intros Hp. unfold gl_points.
+  intros Hp.
   assert (C : (p = 1 \/ p = 2 \/ p = 3)%nat) by lia.
-  destruct C as [E|[E|E]]; subst p; cbn [Nat.div Nat.divmod fst Nat.add gl_rule];
-    eexists; eexists; (split; [reflexivity|]); intros P lo hi H;
-    first [apply gl1_exact | apply gl2_exact]; lia.
+  destruct C as [E|[E|E]]; subst p.
+  - exists c3, [((0, 0), 1 + 1)]. split; [reflexivity|]. intros P lo hi H. apply gl1_exact. exact H.
+  - exists c3, [((0, - (1 / c3)), 1); ((0, 1 / c3), 1)]. split; [reflexivity|]. intros P lo hi H. apply gl2_exact. simpl in H. lia.
+  - exists c3, [((0, - (1 / c3)), 1); ((0, 1 / c3), 1)]. split; [reflexivity|]. intros P lo hi H. apply gl2_exact. exact H.
 Qed.
